@@ -42,7 +42,7 @@ rm -f "$OUT/evidence/$id.json" "$OUT"/evidence/parts/"$id".*.json
 while IFS=$'\t' read -r cmd part race args; do
   build "$cmd" "$race" || { echo "INTERNAL: build of $cmd failed" >&2; exit 2; }
 done <<< "$(echo "$parts" | sort -u -k1,1 -k3,3)"
-PAR=${VERIF_PART_PAR:-2}
+PAR=${VERIF_PART_PAR:-1}
 logd=$(mktemp -d .work/parts.XXXXXX)
 n=0
 while IFS=$'\t' read -r cmd part race args; do
